@@ -391,7 +391,8 @@ class AsyncParmapperAsyncFunc(Unit):
 UNITS_APARMAP = [AsyncParmapperIter, AsyncParmapperIterProcess, AsyncParmapperFunc, AsyncParmapperAsyncIter, AsyncParmapperAsyncFunc]
 
 from contracts.server import ACallUnit, AStreamUnit, AEnqueueUnit, AGatherUnit, AWaitUnit      # noqa: E402
-from contracts.buffer import ParmapperAsyncIter, DoAsyncMain        # noqa: E402
+from contracts.buffer import ParmapperAsyncIter, DoAsyncMain, AsyncIterIter        # noqa: E402
 from contracts.ctors import STREAM_CTORS      # noqa: E402
-UNITS = [AFeed, AFeedNoPre, AConsumer, AConsumerNoPre] + UNITS_APARMAP + list(STREAM_CTORS) + [ParmapperAsyncIter, DoAsyncMain, ACallUnit, AStreamUnit, AEnqueueUnit, AGatherUnit, AWaitUnit, C16Lemma]
+from contracts.c11 import ServerEnterUnit, AServerEnterUnit      # noqa: E402  (each entry of the async server makes its own loop-bound condition, as the sync one makes its own)
+UNITS = [AFeed, AFeedNoPre, AConsumer, AConsumerNoPre] + UNITS_APARMAP + list(STREAM_CTORS) + [ParmapperAsyncIter, DoAsyncMain, AsyncIterIter, ACallUnit, AStreamUnit, AEnqueueUnit, AGatherUnit, AWaitUnit, ServerEnterUnit, AServerEnterUnit, C16Lemma]
 NOT_DECIDED = ('that loop.run_in_executor / create_task / run_coroutine_threadsafe deliver the outcome of what they wrap (trusted asyncio)',)
